@@ -305,12 +305,18 @@ struct Codec<std::byte> : TrivialCodecBase<std::byte>
     static void assign(std::byte& dst, std::uint64_t c) noexcept { store(dst, make(c)); }
 };
 
+inline std::uint32_t g_float_zero_counter = 0;
 template <class T>
 struct Codec<T, std::enable_if_t<std::is_floating_point_v<T>>> : TrivialCodecBase<T>
 {
-    // exact small non-negative integers: no NaN, no signed zero
+    // exact small non-negative integers, no NaN. Zero is materialised alternately as +0.0 and -0.0: equal and unordered
+    // under the type's own == and <, different as bytes.
     static constexpr std::uint64_t canon(std::uint64_t v) noexcept { return v & 0xFFFFF; }
-    static T make(std::uint64_t c) noexcept { return static_cast<T>(c); }
+    static T make(std::uint64_t c) noexcept
+    {
+        if (c == 0 && (++g_float_zero_counter & 1u)) return -static_cast<T>(0);
+        return static_cast<T>(c);
+    }
     static std::uint64_t read(const T& x) noexcept { return static_cast<std::uint64_t>(TrivialCodecBase<T>::load(x)); }
     static void assign(T& dst, std::uint64_t c) noexcept { TrivialCodecBase<T>::store(dst, make(c)); }
 };
